@@ -131,8 +131,12 @@ def make_helpers(int_candidates):
     def is_int(x):
         import numbers
         return isinstance(x, numbers.Integral)
+    import math
+
+    def implies(a, b):
+        return (not a) or bool(b)
     return {'forall': forall, 'exists': exists, 'iff': iff, 'sq': sq, 'is_none': is_none,
-            'is_int': is_int}
+            'is_int': is_int, 'ceil': math.ceil, 'floor': math.floor, 'implies': implies}
 
 
 def val(v):
@@ -279,6 +283,28 @@ def _replay_block(rec, fullmodel):
     args = {}
     for name, spec in rp['params'].items():
         args[rename.get(name, name)] = _spec_value(spec, name, model)
+    # an array the obligation does not depend on is absent from the counter-model: give it the
+    # shape a `X.shape == Y.shape` precondition asks for (its contents are irrelevant)
+    import re
+    for r in rp.get('requires', []):
+        m = re.fullmatch(r'\s*([\w\[\]"\'.]+)\.shape == ([\w\[\]"\'.]+)\.shape\s*', r)
+        if not m:
+            continue
+        try:
+            sides = [(e, eval(e, {}, dict(args))) for e in m.groups()]
+        except Exception:  # noqa: BLE001
+            continue
+        if not all(hasattr(v, 'shape') for _, v in sides) or sides[0][1].shape == sides[1][1].shape:
+            continue
+        pinned = [any(k.startswith(e.replace('"', "'") + '.shape') for k in model) for e, _ in sides]
+        if pinned[0] == pinned[1]:
+            continue
+        (free, fv), (_, ov) = (sides[0], sides[1]) if not pinned[0] else (sides[1], sides[0])
+        new = np.zeros(ov.shape, dtype=fv.dtype)
+        if free.isidentifier():
+            args[free] = new
+        else:
+            exec(free + ' = __vf_new', {}, {**args, '__vf_new': new})
     olds = {'old_' + k: copy.deepcopy(v) for k, v in args.items()}
     body = textwrap.indent(rp['source'], ' ' * 8)
     src = ('def __vf_block(' + ', '.join(args) + '):\n'
